@@ -123,7 +123,7 @@ def ad_grad(E, s):
     N, R = s['N'], s['R']
     d = len(N)
     x, xc = tt_input(E, 'x', N, R, 'float64')
-    y, yc = tt_input(E, 'y', N, s.get('R2', R), 'float64')
+    y, yc = tt_input(E, 'y', s.get('N2', N), s.get('R2', R), 'float64')
     A = Ac = Ad = None
     if s['expr'] in ('matvec', 'matmat', 'bilinear'):
         A, Ac = tt_input(E, 'A', N, s.get('RA', R), 'float64', N)
